@@ -22,7 +22,8 @@ void verif_replay_assume(const char *file, int line);
 #define ND_ARR(T, name, n) T name[n]; do { for (long i_ = 0; i_ < (long)(n); i_++) { unsigned long long b_ = verif_replay_get(#name, i_); memcpy(&name[i_], &b_, sizeof(name[0])); } } while (0)
 #define CHECK(c, msg) do { if (!(c)) verif_replay_fail(msg, __FILE__, __LINE__); } while (0)
 #define ASSUME(c) do { if (!(c)) verif_replay_assume(__FILE__, __LINE__); } while (0)
-#define PATH_END() verif_replay_assume(__FILE__, __LINE__)
+void verif_replay_pathend(void);
+#define PATH_END() verif_replay_pathend()
 #define IS_CBMC 0
 #else
 #define ND(T, name) T VCAT(nondet_, name)(void); T name = VCAT(nondet_, name)()
